@@ -6,7 +6,30 @@ import srcgen_targets as ST
 
 args = sys.argv[1:]
 skel = '--skeleton' in args
-args = [a for a in args if a != '--skeleton']
+table = '--table' in args
+args = [a for a in args if a not in ('--skeleton', '--table')]
+if table:
+    # markdown table of every target; optional mutation results from json files given as further arguments
+    import json
+    muts = {}
+    for f in [a for a in args if a.endswith('.json')]:
+        for r in json.load(open(f)):
+            muts.setdefault((r['area'], r['name']), []).append(r)
+    print('| source function | Gen definition | model expression (right-hand side) | theorem | owners | mutants '
+          '(refused / unproved / equivalent) |')
+    print('|---|---|---|---|---|---|')
+    for t in ST.TARGETS:
+        ms = muts.get((t.area, t.name), [])
+        cnt = lambda v: sum(1 for m in ms if m['verdict'] == v)  # noqa
+        mcol = '%d / %d / %d' % (cnt('refused'), cnt('unproved'), cnt('equivalent')) if ms else '-'
+        bad = [m for m in ms if m['verdict'] not in ('refused', 'unproved', 'equivalent')]
+        if bad:
+            mcol += ' **%s**' % ','.join(m['verdict'] for m in bad)
+        model = t.model if len(t.model) < 90 else t.model[:87] + '...'
+        print('| `%s` | `Src%s.%s` | `%s` | `%s` | %s | %s |' % (
+            t.qual.replace('yaql.standard_library.', '').replace('yaql.language.', ''), t.area, t.name,
+            model.replace('|', '\\|'), t.theorem, ' '.join(t.owners), mcol))
+    sys.exit(0)
 for a in args:
     for t in ST.by_area()[a]:
         fx = {p: v[0] for p, v in t.fix.items()}
